@@ -43,6 +43,13 @@ let model_main () =
                print_endline ("R prop " ^ (if r.r_ok then "1" else "0") ^ " cnfl=" ^ string_of_clause r.r_cnfl ^ " lemmas=" ^ string_of_lemmas r.r_lemmas);
                out_state ()
              | _ -> failwith "step")
+          | "E" :: (("setlb" | "setub") as w) :: v :: vl :: al ->
+            (match step (ESetBound (alpha_of_tokens al, (if w = "setlb" then Lower else Upper), nat_of_int (int_of_string v), qd_of_string vl)) !st with
+             | (s, OProp r) ->
+               st := s;
+               print_endline ("R prop " ^ (if r.r_ok then "1" else "0") ^ " cnfl=" ^ string_of_clause r.r_cnfl ^ " lemmas=" ^ string_of_lemmas r.r_lemmas);
+               out_state ()
+             | _ -> failwith "step")
           | "E" :: "check" :: _ ->
             (match step (ECheck fuel) !st with
              | (s, OCheck r) ->
